@@ -192,9 +192,15 @@ class ScriptedRunner(SimulationRunner):
 
     def _on_simulate_current_params_start(self, current_params):
         self.w.cur_v = max(0, current_params.unpack_index)
+        self.w.hook_log.append(("start", max(0, current_params.unpack_index), canon_params(current_params.parameters), None))
         self.w.seams.seam("cb:params_start")
 
     def _on_simulate_current_params_finish(self, current_params, res):
+        try:
+            ids = [int(i) for i in res["ids"][-1]._value_list]
+        except Exception as e:       # noqa: BLE001
+            ids = "unreadable: %s" % type(e).__name__
+        self.w.hook_log.append(("finish", max(0, current_params.unpack_index), canon_params(current_params.parameters), ids))
         self.w.seams.seam("cb:params_finish")
 
 
@@ -225,6 +231,7 @@ class World:
         self.serial = 0
         self.exec_ok = {}
         self.trace = []
+        self.hook_log = []
         self.faults = {}
         self.probes = {}
         self.states = []
@@ -448,6 +455,7 @@ class World:
         self.inc_index = k
         self.inc_calls = 0
         self.trace = []
+        self.hook_log = []
         self.succ_in_v = {}
         self.loaded_in_v = {}
         self.cur_v = None
@@ -782,6 +790,17 @@ def _check_completed(w, pid, res, k, inc, cfg, pname, pred, final_name, parts, s
         if d["state"] != "ok" or d["rep"] != per_v[i]["rep"] or d["ids"] != per_v[i]["ids"]:
             add_violation(res, pid + ".merge", k, "simulate(%d): partial results file holds %s, expected rep=%d ids=%s" % (
                 i, {kk: d.get(kk) for kk in ("state", "rep", "ids", "why")}, per_v[i]["rep"], per_v[i]["ids"]), sig_f)
+        return
+    # the per-variation hooks received the right combination and, at the end, exactly that variation's merged results
+    vs_ = variations_of(cfg)
+    want_hooks = []
+    for v in pred["idxs"]:
+        want_hooks.append(("start", v, canon_params(vs_[v]), None))
+        want_hooks.append(("finish", v, canon_params(vs_[v]), per_v[v]["ids"]))
+    if w.hook_log != want_hooks:
+        j = next((i for i in range(min(len(w.hook_log), len(want_hooks))) if w.hook_log[i] != want_hooks[i]), min(len(w.hook_log), len(want_hooks)))
+        add_violation(res, pid + ".hooks", k, "per-variation hook call #%d was %s, expected %s" % (
+            j, w.hook_log[j] if j < len(w.hook_log) else None, want_hooks[j] if j < len(want_hooks) else None), sig_f)
         return
     exp_reps = [per_v[v]["rep"] for v in pred["idxs"]]
     if list(r.runned_reps) != exp_reps:
